@@ -122,3 +122,58 @@ package deb
 //@   ensures [C10] signer-failure-is-typed: implies(ghostFlag("failed"), errAsSigningFailure(err))
 //@   ensures [C10] signer-error-is-wrapped: implies(ghostFlag("failed") && !isNilFunc(old(info.Deb.Signature.SignFn)), errIs(err, globErr("signerErr")))
 //@   modifies [C11 C12] flag("failed"), flag("signed"), flag("signerCalled"), flag("clockRead"), glob("signedBytes"), glob("signerErr")
+
+//@ spec func epochPrefix(epoch string) string {
+//@     if epoch == "" { return "" }
+//@     return epoch + ":"
+//@ }
+//
+//@ spec func platformPrefix(platform string) string {
+//@     if platform == "linux" { return "" }
+//@     return platform + "-"
+//@ }
+//
+//@ spec func optField(name, value string) string {
+//@     if value == "" { return "" }
+//@     return "\n" + name + ": " + value
+//@ }
+//
+//@ spec func relField(name string, list []string) string {
+//@     if len(list) == 0 { return "" }
+//@     return "\n" + name + ": " + strings.Trim(strings.Join(list, ", "), " ")
+//@ }
+//
+//@ spec func debControlHead(info *nfpm.Info, instSize int64) string {
+//@     return "Package: " + info.Name +
+//@         "\nVersion: " + epochPrefix(info.Epoch) + debVersion(info.Version, info.Prerelease, info.VersionMetadata, info.Release) +
+//@         "\nSection: " + info.Section +
+//@         "\nPriority: " + info.Priority +
+//@         "\nArchitecture: " + platformPrefix(info.Platform) + info.Arch +
+//@         optField("License", info.License) +
+//@         optField("Maintainer", info.Maintainer) +
+//@         "\nInstalled-Size: " + strconv.FormatInt(instSize, 10) +
+//@         relField("Replaces", info.Replaces) +
+//@         relField("Provides", callStrs("writeControl$3", info.Provides)) +
+//@         relField("Pre-Depends", info.Deb.Predepends) +
+//@         relField("Depends", info.Depends) +
+//@         relField("Recommends", info.Recommends) +
+//@         relField("Suggests", info.Suggests) +
+//@         relField("Conflicts", info.Conflicts) +
+//@         relField("Breaks", info.Deb.Breaks) +
+//@         optField("Homepage", info.Homepage) +
+//@         "\nDescription: " + callStr("writeControl$2", info.Description)
+//@ }
+//
+//@ import "strconv"
+//
+//@ func writeControl(w io.Writer, data controlData) (err error)
+//@   requires data.Info != nil
+//@   ensures [C02 C14 C15] control-fields: implies(err == nil, ghostStr(w, "out") == old(ghostStr(w, "out")) + debControlHead(data.Info, data.InstalledSize) + renderedRange(".Info.Deb.Fields") + "\n")
+//
+//@ func writeControl$3(strs []string) (result []string)
+//@   ensures [C02] no-blank-items: forall(0, len(result), func(i int) bool { return result[i] != "" && result[i] == strings.TrimSpace(result[i]) })
+//@   loop 0 (result []string)
+//@     invariant [C11 C12] accumulator-fresh: result == nil || fresh(result)
+//@     invariant [C02] no-blank-items-so-far: forall(0, len(result), func(i int) bool { return result[i] != "" && result[i] == strings.TrimSpace(result[i]) })
+//
+//@ pure func writeControl$2(strs string) (result string)
